@@ -155,7 +155,18 @@ class ExprMixin:
             xc, yc = _conc_int(x), _conc_int(y)
             if xc is not None and yc is not None:
                 return VI(B.py_binop(op, xc, yc))
-            raise Unsupported(f'symbolic bit operation {op}')
+            # non-negative operands below 2**62: exact through 64-bit vectors (python ints are unbounded; outside this window: unsupported)
+            W = 64
+            lim = 1 << 62
+            ok = z3.And(x >= 0, x < lim, y >= 0, y < (64 if op in ('LShift', 'RShift') else lim))
+            if not self.branch(ok):
+                raise Unsupported(f'bit operation {op} on a negative or huge operand')
+            bx, by = z3.Int2BV(x, W), z3.Int2BV(y, W)
+            r = {'BitAnd': bx & by, 'BitOr': bx | by, 'BitXor': bx ^ by, 'LShift': bx << by, 'RShift': z3.LShR(bx, by)}[op]
+            if op == 'LShift':
+                if not self.branch(z3.BV2Int(z3.LShR(r, by), False) == x):
+                    raise Unsupported('left shift overflowing the 64-bit window')
+            return VI(z3.BV2Int(r, False))
         if op == 'Div':
             return self.opq_binop(op, a, b)
         raise Unsupported(f'binop {op}')
@@ -335,6 +346,9 @@ class ExprMixin:
                 o = a if a.k == 'opq' else b
                 return self.ufunc('is_none', OPQ, BOOL)(o.t)
             return z3.BoolVal(a.k == b.k)
+        if {a.k, b.k} == {'ref', 'obj'}:
+            r, o = (a, b) if a.k == 'ref' else (b, a)
+            return r.t == self.elem_code(o)
         if a.k in ('obj', 'list', 'dict') or b.k in ('obj', 'list', 'dict'):
             return z3.BoolVal(a.k == b.k and a.t == b.t)
         if a.k == 'enumv' or b.k == 'enumv':
@@ -347,6 +361,9 @@ class ExprMixin:
             return a.t == b.t
         if a.k == 'ref' and b.k == 'ref':
             return a.t == b.t
+        if {a.k, b.k} == {'ref', 'obj'}:
+            r, o = (a, b) if a.k == 'ref' else (b, a)
+            return r.t == self.elem_code(o)
         raise Unsupported(f'is: {a} {b}')
 
     def equal(self, a, b):
@@ -421,8 +438,42 @@ class ExprMixin:
         h = self.st.heap[v.t]
         if isinstance(h, HSeqList):
             return h.seq
-        us = [z3.Unit(x.t if x.k == 'ref' else self.as_int(x)) for x in h.items]
+        us = [z3.Unit(self.elem_code(x)) for x in h.items]
         return z3.Empty(SEQ) if not us else (us[0] if len(us) == 1 else z3.Concat(*us))
+
+    def elem_code(self, x):
+        """integer code of a list element inside a symbolic sequence: symbolic references as they are, concrete objects as -id
+        (their declared ref_fields are synchronised into the field arrays when they escape)"""
+        if x.k == 'ref':
+            return x.t
+        if x.k == 'obj':
+            self.escape(x)
+            return z3.IntVal(-x.t)
+        return self.as_int(x)
+
+    def escape(self, o):
+        esc = self.st.ghost.setdefault(('escaped',), set())
+        if o.t in esc:
+            return
+        esc.add(o.t)
+        h = self.st.heap[o.t]
+        for name, spec in (self.cur_contract or {}).get('ref_fields', {}).items():
+            if name in h.f:
+                self.sync_ref_field(o, name, h.f[name], spec)
+
+    def sync_ref_field(self, o, name, val, spec):
+        import z3 as _z
+        sort = {'int': INT, 'str': SEQ, 'bytes': SEQ, 'bool': BOOL}[spec.rstrip('?')]
+        arr = self.st.ghost.get(('heapf', name))
+        if arr is None:
+            arr = _z.Const(f'heap_{name}', _z.ArraySort(INT, sort))
+        idx = _z.IntVal(-o.t)
+        if spec.endswith('?'):
+            self.st.ghost[('heapn', name)] = _z.Store(self._none_arr(name), idx, _z.BoolVal(val.k == 'none'))
+        if val.k != 'none':
+            tv = self.as_seq(val) if sort == SEQ else (self.as_int(val) if sort == INT else self.truth(val))
+            arr = _z.Store(arr, idx, tv)
+        self.st.ghost[('heapf', name)] = arr
 
     def _unsup_eq(self, a, b):
         raise Unsupported(f'== between {a} and {b}')
@@ -546,6 +597,12 @@ class ExprMixin:
                 r = items[::sc]
                 return SV('tuple', tuple(r)) if base.k == 'tuple' else SV('list', self.st.alloc(HList(r)))
             raise Unsupported('slice step')
+        if base.k == 'list' and isinstance(self.st.heap[base.t], HSeqList):
+            h = self.st.heap[base.t]
+            if lo.k == 'none' and hi.k == 'none':
+                return SV('list', self.st.alloc(HSeqList(h.seq, h.x)))      # copy
+            r = self.slice_value(SV('seq', h.seq, h.x), lo, hi, step, node)
+            return SV('list', self.st.alloc(HSeqList(r.t, h.x)))
         if base.k in ('list', 'tuple'):
             items = list(base.t) if base.k == 'tuple' else self.st.heap[base.t].items
             a = None if lo.k == 'none' else _conc_int(self.as_int(lo))
@@ -581,6 +638,9 @@ class ExprMixin:
         raise Unsupported('slice of an opaque value')
 
     def index_value(self, base, idx, node=None):
+        if base.k == 'list' and isinstance(self.st.heap[base.t], HSeqList):
+            h = self.st.heap[base.t]
+            return self.index_value(SV('seq', h.seq, h.x), idx, node)
         if base.k in ('list', 'tuple'):
             items = base.t if base.k == 'tuple' else self.st.heap[base.t].items
             ic = _conc_int(self.as_int(idx))
@@ -623,8 +683,8 @@ class ExprMixin:
                     raise PyRaise('IndexError')
             if base.k == 'str' or (base.k == 'const' and isinstance(base.t, str)):
                 return VS(z3.Extract(s, i, z3.IntVal(1)))
-            if base.k == 'seq' and base.x == 'ref':
-                return SV('ref', s[i])
+            if base.k == 'seq' and base.x not in (None, 'int'):
+                return SV('ref', s[i], base.x)
             return VI(s[i])
         if base.k == 'cls' or (base.k == 'const'):
             return self.generic_subscript(base, idx)
